@@ -1,9 +1,14 @@
 #!/bin/bash
-# run every registered quick (or $1=thorough) check sequentially, print one summary line each
+# run every registered quick (or $1=thorough) check sequentially, print one summary line each and a final verdict
 cd "$(dirname "$0")/.."
 TIER=${1:-quick}
+python3 tools/lint.py harness/*.py engine/*.py spec/*.py || { echo "RED: lint"; exit 1; }
+red=""
 for id in $(python3 -c "import json; print(' '.join(c['property_id'] for c in json.load(open('MANIFEST.json'))['checks']))"); do
   out=$(./check $id $TIER 2>/dev/null); rc=$?
   echo "rc=$rc $(echo "$out" | tail -1)"
   echo "$out" | grep -E "^(VIOLATION|HARNESS-ERROR)" | head -5
+  [ $rc -ne 0 ] && red="$red $id"
+  echo "$out" | tail -1 | grep -qE " 0 inconclusive" || red="$red $id(inconclusive)"
 done
+if [ -z "$red" ]; then echo "ALL GREEN"; else echo "RED:$red"; fi
